@@ -392,7 +392,10 @@ macro_rules! relation_to_query_translator_trait_constructor {
                     expr::Value::Enum(_) => todo!(),
                     expr::Value::Float(f) => self.format_float_value(**f),
                     expr::Value::Text(t) => {
-                        ast::Expr::Value(ast::Value::SingleQuotedString(format!("{}", **t)))
+                        // sqlparser prints a doubled quote as it is (it cannot tell whether the
+                        // string is already escaped): double every quote so that a text holding
+                        // two consecutive quotes is not read back with one
+                        ast::Expr::Value(ast::Value::SingleQuotedString(t.replace('\'', "''")))
                     }
                     expr::Value::Bytes(_) => todo!(),
                     expr::Value::Struct(_) => todo!(),
